@@ -10,6 +10,8 @@ import (
 	"github.com/glebziz/fs_db/internal/utils/ptr"
 )
 
+import "github.com/glebziz/fs_db/internal/verifhook"
+
 func (u *UseCase) Get(ctx context.Context, key string) (io.ReadCloser, error) {
 	txId := model.GetTxId(ctx)
 	tx, err := u.txRepo.Get(ctx, txId)
@@ -33,6 +35,7 @@ func (u *UseCase) Get(ctx context.Context, key string) (io.ReadCloser, error) {
 		return nil, fmt.Errorf("file repository get: %w", err)
 	}
 
+	verifhook.At("get.afterLookup")
 	cf, err := u.cfRepo.Get(ctx, f.ContentId)
 	if err != nil {
 		return nil, fmt.Errorf("content file repository get: %w", err)
